@@ -23,7 +23,7 @@ import (
 	"verif/vk"
 )
 
-const c01Rule = "rapid state machine over a logged-on session (both roles, every BeginString, chunk sizes, memory/file store): faithful counterparty traffic with losses and replays, mixed with injected messages of every type whose MsgSeqNum / NewSeqNo / PossDup / OrigSendingTime are drawn relative to the expected number, timer events, engine sends, reconnects; non-trivial = history with a delivery from the stash, a PossDup replay, or a SequenceReset; distinct = distinct history"
+const c01Rule = "rapid state machine over a logged-on session (both roles, every BeginString, chunk sizes, memory/file store): faithful counterparty traffic with losses and replays, mixed with injected messages of every type whose MsgSeqNum / NewSeqNo / PossDup / OrigSendingTime are drawn relative to the expected number, timer events, engine sends, reconnects, ResetOnLogout / ResetOnDisconnect configured or not; non-trivial = history with a delivery from the stash, a PossDup replay, or a SequenceReset; distinct = distinct history"
 
 func c01() *stats.Collector {
 	c := stats.Get("C01")
@@ -207,6 +207,15 @@ func c01Property(t *rapid.T) {
 	cfg := genSimCfg(t)
 	drawExtras(t, c, &cfg)
 	draw789(t, c, &cfg)
+	// the reset options decide what happens to the numbers when a logged-on period ends, not how
+	// arrivals are treated while a connection lasts (also while the engine waits for the answer to
+	// its own Logout)
+	for _, k := range []string{config.ResetOnLogout, config.ResetOnDisconnect} {
+		if rapid.IntRange(0, 3).Draw(t, k) == 0 {
+			cfg.settings[k] = "Y"
+			c.Class("setting:" + k)
+		}
+	}
 	s := newSim(t, c, cfg)
 	if rapid.IntRange(0, 2).Draw(t, "writer-sometimes-busy") == 0 {
 		s.busyWriter = func() bool { return rapid.IntRange(0, 2).Draw(t, "writer-busy") == 0 }
